@@ -685,6 +685,51 @@ def mutants(buf, limit_per_class=None):
     return out
 
 
+def resize_mutants(buf, max_nodes=400):
+    """Well-formed encodings whose *field sizes* are unexpected: every primitive value shortened (by one octet, to half, to
+    one octet, to nothing) or lengthened (by one octet, doubled, to 256 and to 70000 octets), every constructed value with its
+    last child removed or duplicated; all enclosing lengths are recomputed, so the result is valid DER that a decoder with
+    a fixed-size destination has to refuse by itself.  -> [(note, bytes)]"""
+    buf = bytes(buf)
+    try:
+        root = parse(buf, strict_prims=False)
+    except DERError:
+        return []
+    out, seen = [], {buf}
+
+    def add(note, data):
+        if data is not None and data not in seen and len(data) <= 140000:
+            seen.add(data)
+            out.append((note, data))
+    for i, (n, d) in enumerate(root.nodes()[:max_nodes]):
+        path = '%d:%02x' % (i, n.tag)
+        if n.constructed:
+            if n.children:
+                def f(x):
+                    x.children = x.children[:-1]
+                add('drop-last-child@' + path, _with(root, i, f))
+
+                def f(x):
+                    x.children = list(x.children) + [x.children[-1].copy()]
+                add('dup-last-child@' + path, _with(root, i, f))
+            continue
+        v = n.value
+        keep = 1 if n.tag == TAG_BIT_STRING and v else 0      # the unused-bits octet stays in front
+        head, body = v[:keep], v[keep:]
+        fillb = body[-1:] or b'\x41'
+        variants = [('minus1', body[:-1]), ('half', body[:len(body) // 2]), ('one', body[:1]), ('empty', b''),
+                    ('plus1', body + fillb), ('double', body + body), ('to256', (body + fillb * 256)[:256]),
+                    ('to70000', (body + fillb * 70000)[:70000])]
+        for nm, nb in variants:
+            if nb == body:
+                continue
+
+            def f(x, nb=nb):
+                x.value = head + nb
+            add('%s@%s' % (nm, path), _with(root, i, f))
+    return out
+
+
 class _Raw(Node):
     """Verbatim bytes spliced into a constructed value (used for 'trailing-inside')."""
 
